@@ -77,6 +77,12 @@ EXT = {
     "c a": (["arr", "c a"], [A(7, 4), A(7, 5), A(3, 3)]),
     "*v a": (["arr", "*v a"], [A(4), A(2, 4), A(2, 5), A(3, 3)]),
     "PU": (["pytree", ["arr", "b"], "T"], [["tuple", [A(2), A(2)]], ["list", [A(2)]], A(2)]),
+    # a broadcastable variadic axis bound first, then WIDENED by an early leaf of a PyTree whose later leaf fails
+    "BV": (["arr", "*#v"], [A(1), A(3)]),
+    "PV": (["pytree", ["arr", "*#v"]], [["tuple", [A(3), A(4)]], ["tuple", [A(3), A(3)]], ["tuple", [A(1), A(2), A(3)]]]),
+    # a structure name first bound through a union leaf whose FIRST alternative fails on shape
+    "PX": (["pytree", ["union", [["arr", "3"], ["arr", "4"]]], "T"], [["tuple", [A(4), A(4)]], A(4), ["tuple", [A(3), A(4)]]]),
+    "PY": (["pytree", ["int"], "T"], [["tuple", [["lit", 1], ["lit", 2]]], ["lit", 5], ["list", [["lit", 1]]]]),
 }
 
 
